@@ -293,8 +293,13 @@ def _body_ensures(eng, spec, st, fr, extra, pre, node):
     """per-iteration postcondition of a loop body (state at the end of the iteration; k_ = index of this iteration)"""
     if getattr(spec, "body_ensures", None) is None:
         return
+    from .ops import BindingError
     ns = eng.namespace(st, entry=fr.fn["entry"], extra=extra)
-    eng.oblige_clauses("loop-body", pre + ":every iteration", st, spec.body_ensures(eng.S, ns), node)
+    try:
+        clauses = spec.body_ensures(eng.S, ns)
+    except BindingError as ex:
+        clauses = [(f"the per-iteration postcondition binds to the code (missing: {ex})", z3.BoolVal(False))]
+    eng.oblige_clauses("loop-body", pre + ":every iteration", st, clauses, node)
 
 
 def _inv(eng, spec, st, fr, extra):
@@ -379,8 +384,27 @@ def iteration_space(eng, it, st, node):
     raise Unsupported(f"iteration over {type(it).__name__}")
 
 
+def _iterates(eng, s, it, st, fr):
+    """obligation at the entry of a for-loop about WHAT it iterates over (Loop(iterates=...), a.it_ = the iterable)"""
+    spec = eng.cur.loops.get(fr.fn["ordinals"].get(id(s))) if eng.cur.loops else None
+    if spec is None or getattr(spec, "iterates", None) is None:
+        return
+    from .ops import BindingError
+    pre = f"loop{fr.fn['ordinals'][id(s)]}"
+    try:
+        itv = eng.to_v(it)
+        clauses = spec.iterates(eng.S, eng.namespace(st, entry=fr.fn["entry"], extra={"it_": itv}))
+    except (BindingError, Unsupported) as ex:
+        clauses = [(f"the clause about the iterated collection binds to the code ({ex})", z3.BoolVal(False))]
+    eng.oblige_clauses("loop-iterates", pre, st, clauses, s)
+
+
 def for_loop(eng, s, st, fr, k):
     def with_iter(it, st1):
+        _iterates(eng, s, it, st1, fr)
+        if type(it).__name__ == "PySet":
+            # iterating a set built from a literal list: an opaque collection (order and multiplicity unknown)
+            it = Opq(z3.Function("fn:set", E_V, E_V)(eng.to_v(list(it.elems))))
         # concrete Python sequences are unrolled
         if isinstance(it, (list, tuple)) or (isinstance(it, PyZip) and all(isinstance(x, (list, tuple)) for x in it.seqs)) \
                 or (isinstance(it, PyEnum) and isinstance(it.seq, (list, tuple))):
